@@ -132,6 +132,12 @@ func ifaceMethodName(recv types.Type, m string) string {
 func valueDesc(v ssa.Value) string {
 	switch x := v.(type) {
 	case *ssa.UnOp:
+		if fv, ok := x.X.(*ssa.FreeVar); ok {
+			return "freevar:" + fv.Name()
+		}
+		if al, ok := x.X.(*ssa.Alloc); ok && al.Comment != "" {
+			return "local:" + al.Comment
+		}
 		if fa, ok := x.X.(*ssa.FieldAddr); ok {
 			st := fa.X.Type().Underlying().(*types.Pointer).Elem().Underlying().(*types.Struct)
 			return "field:" + st.Field(fa.Field).Name()
